@@ -24,7 +24,7 @@ ASSUMPTIONS = ["thread interleavings are steered by phases, a latch and jitter, 
 
 
 def examples(tier):
-    return 1200 if tier == "quick" else 12000
+    return 2000 if tier == "quick" else 40000
 
 
 def budget_s(tier):
